@@ -25,13 +25,18 @@ func runNewRows[E any](t *T, s *scheme[E], rows []newRow) {
 		t.distinct(r.api, "fresh", "ct", "-", true)
 		var out *rlwe.Ciphertext
 		o := t.guarded(r.api, "", r.api+" fresh", r.ins(), func() (err error) { out, err = r.run(); return })
-		if !o.ok() || out == nil || r.ref == nil {
+		if !o.ok() || out == nil {
+			continue
+		}
+		if r.ref == nil {
+			t.independent(r.api, r.api+" fresh", out, r.ins())
 			continue
 		}
 		var ref *rlwe.Ciphertext
 		if protect(func() (err error) { ref, err = r.ref(); return }).ok() && ref != nil {
 			t.same(r.api, "new-vs-inplace", "", r.api, canonCt(s.rq, ref), canonCt(s.rq, out))
 		}
+		t.independent(r.api, r.api+" fresh", out, r.ins())
 	}
 }
 
